@@ -152,6 +152,8 @@ def run(F, chk):
     check_reported_names(F, X6)
     X7 = chk.rule('X7', 'extract_archives leaves an archive entry out of the matching files only on a path that evaluated the glob pattern for it')
     check_member_selection(F, X7)
+    X8 = chk.rule('X8', 'archive module: a binary search over a sequence compares by the order the sequence was sorted by (same key type: String order is not Path order)')
+    check_lookup_order(F, X8)
 
 
 # ---------------------------------------------------------------------------------------------
@@ -435,3 +437,103 @@ def check_member_selection(F, X7):
                 X7.violation(('member-rejected-without-matching', b.path), 'in %s an archive entry can be left out of the matching files on a path that never evaluates the glob pattern for it: members that match the requested '
                              'pattern are not extracted' % b.path, where=b.loc(b.blocks[bad[0]].term.sp))
     X7.floor('member selection loops using glob::Pattern::matches', n, 1)
+
+
+# ---------------------------------------------------------------------------------------------
+# X8: a sorted lookup uses the order of the sort
+
+ORDER_EQ = {'std::string::String': 'str', 'std::path::PathBuf': 'std::path::Path', 'std::ffi::OsString': 'std::ffi::OsStr', 'std::vec::Vec<u8>': '[u8]'}
+
+
+def _norm_key_ty(t):
+    t = (t or '').strip()
+    while t.startswith('&'):
+        t = t[1:].lstrip()
+        if t.startswith("'"):
+            t = t.split(' ', 1)[1] if ' ' in t else t
+        if t.startswith('mut '):
+            t = t[4:]
+    t = re.sub(r'^std::borrow::Cow<\'?\w*,? ?(.*)>$', r'\1', t)
+    return ORDER_EQ.get(t, t)
+
+
+def _cmp_key_types(F, body, closure_operand):
+    """key types compared inside a comparator closure: the self type of the Ord::cmp / PartialOrd::partial_cmp calls in it"""
+    import comparators
+    cl = comparators.closure_path_of(F, body, closure_operand)
+    if cl is None:
+        return None
+    out = set()
+    for blk in cl.calls():
+        p = blk.term.callee.path
+        if p in ('std::cmp::Ord::cmp', 'std::cmp::PartialOrd::partial_cmp') or p.endswith('::cmp'):
+            if blk.term.args:
+                out.add(_norm_key_ty(blk.term.args[0].ty))
+    return out
+
+
+def _elem_ty(recv_ty):
+    m = re.match(r'&(?:mut )?(?:std::vec::Vec<(.*)>|\[(.*)\]|std::collections::VecDeque<(.*)>)$', recv_ty or '')
+    if not m:
+        return None
+    return next(g for g in m.groups() if g)
+
+
+def check_lookup_order(F, X8):
+    """"selects exactly the members whose name matches": a member is looked up among the requested names.  When that lookup is
+    a binary search, the comparator must induce the order the sequence was sorted by - for names this matters: `String`
+    order is byte-wise, `Path` order is component-wise (`logs-old/a` vs `logs/a` differ), so a sequence sorted as strings
+    and searched as paths (or vice versa) misses entries that are present.  Per function (with its closures) of the archive
+    module: the key type compared by every binary_search_by / partition_point closure over elements T must be the key type
+    of a sort of a T-sequence in the same function (natural `sort()` = T itself)."""
+    bodies = [b for b in F.order if b.crate == 'lib' and b.path.startswith('adlt::utils::unzip::') and '::tests::' not in b.path and b.kind != 'closure']
+    X8.floor('functions of the archive module', len(bodies), 8)
+    n = 0
+    for f in bodies:
+        group = [f] + list(F.closures_of(f.path))
+        sorts = {}     # element type -> set of key types
+        lookups = []
+        for b in group:
+            for blk in b.calls():
+                t = blk.term
+                p = t.callee.path
+                m = re.search(r'::(sort|sort_unstable|sort_by|sort_unstable_by|sort_by_key|sort_unstable_by_key|sort_by_cached_key|binary_search|binary_search_by|binary_search_by_key|partition_point)$', p)
+                if not m or not t.args:
+                    continue
+                el = _elem_ty(t.args[0].ty)
+                if el is None:
+                    continue
+                k = m.group(1)
+                if k in ('sort', 'sort_unstable'):
+                    sorts.setdefault(el, set()).add(_norm_key_ty(el))
+                elif k.startswith('sort'):
+                    if 'key' in k:
+                        cl = None
+                        import comparators
+                        cl = comparators.closure_path_of(F, b, t.args[1]) if len(t.args) > 1 else None
+                        if cl is not None:
+                            sorts.setdefault(el, set()).add(_norm_key_ty(cl.ret_type()))
+                    else:
+                        ks = _cmp_key_types(F, b, t.args[1]) if len(t.args) > 1 else None
+                        for x in (ks or ()):
+                            sorts.setdefault(el, set()).add(x)
+                elif k == 'binary_search':
+                    lookups.append((b, blk, el, {_norm_key_ty(el)}))
+                elif k == 'binary_search_by_key':
+                    import comparators
+                    cl = comparators.closure_path_of(F, b, t.args[-1])
+                    lookups.append((b, blk, el, {_norm_key_ty(cl.ret_type())} if cl is not None else None))
+                else:
+                    lookups.append((b, blk, el, _cmp_key_types(F, b, t.args[1]) if len(t.args) > 1 else None))
+        for (b, blk, el, keys) in lookups:
+            n += 1
+            X8.sites += 1
+            X8.fn(f.path)
+            sk = sorts.get(el, set())
+            if keys is not None and keys and keys <= sk:
+                X8.ok(sample={'lookup_at': b.loc(blk.term.sp), 'compares_by': sorted(keys), 'sequence_sorted_by': sorted(sk)})
+            else:
+                X8.violation(('lookup-order', f.path, ','.join(sorted(x.split('::')[-1] for x in (keys or ['?'])))), '%s searches a sequence of %s at %s with a comparator over %s, but the sequence is sorted by %s in this function: '
+                             'an order that differs from the sort order (String is byte-wise, Path is component-wise) makes the binary search miss members that are present - they are silently not extracted' %
+                             (f.path, el, b.loc(blk.term.sp), sorted(keys or ['?']), sorted(sk) or 'nothing'), where=b.loc(blk.term.sp))
+    X8.ok(sample={'sorted_lookups_in_the_archive_module': n, 'note': 'membership tests are linear scans today; the rule arms itself with the first binary search'}) if n == 0 else None
